@@ -3,6 +3,7 @@ import LcmProofs.Congr
 import LcmProofs.FuncPerm
 import LcmProofs.EnvPerm
 import LcmProofs.SpecPerm
+import LcmProofs.ChoicePerm
 import LcmProps.C01
 namespace Lcm
 
@@ -21,7 +22,10 @@ the specification level: each entry is `specV` of its state (`C01_entry_eq_spec_
 under permuting declarations (`C10_last_period_value_of_state`: enumeration order by `assignments_perm`, lookups by
 `envEq_of_perm`, function lookup by `find?_func_perm`, conjunction order by `allTrue_perm`).
 
-Not proved in Lean (covered by the metamorphic correspondence only): the same statement for earlier periods - it needs,
+Proved for **every period** when the states keep their order (`C10_choice_and_function_order_irrelevant`, further down):
+permuting the choices and the functions leaves all arrays identical.
+
+Not proved in Lean (covered by the metamorphic correspondence only): permuted *states* in earlier periods - it needs,
 in addition, that the two continuation functions `vhat` agree as functions of the named state, i.e. invariance of the
 multilinear interpolation under permuting continuous axes jointly with the feasible-rank re-indexing - and consistent
 renaming (needs a commutation lemma for every name-handling function: `next_` prefix, `_filter` / `_constraint`
@@ -158,6 +162,146 @@ theorem C10_last_period_entries_agree_unrestricted {m m' : Model} (h : PermOf m 
   have := gridState_choice_names_nodup m hnd
   rw [hemp.1] at this
   simpa using this
+
+/-! ## Every period: the order of the choices and of the functions
+
+`C10_choice_and_function_order_irrelevant`: two specifications that declare the same states in the same order, the same
+choices in any order and the same functions in any order (transition functions keeping their relative order) have
+**identical value arrays in every period** - although everything `solve` does with the choices differs: which group a
+choice belongs to is the same, but the order inside the groups, the stored rows of the state-choice space, the segment
+ids, the dense choice axes and the enumeration order of the continuous grids all change. Proof: both arrays are
+materialised tensors of the same shape (`solve_shape`, the state groups agree: `state_groups_eq`); every in-range entry
+is `specV` of the same named state (`C01_entry_eq_spec_*`, `feasOf_choicePerm`); `specV` is invariant
+(`specV_perm_of`) because the objectives agree (`uAndF_choicePerm`) once the continuation arrays agree - which is the
+induction hypothesis. -/
+
+theorem cond_choicePerm {m m' : Model} (h : ChoicePermOf m m') (hfn : (m.functions.map (·.name)).Nodup)
+    (hnd : ((m.states ++ m.choices).map (·.1)).Nodup) :
+    (!((groups m').sS.isEmpty && (groups m').sC.isEmpty)) = (!((groups m).sS.isEmpty && (groups m).sC.isEmpty)) := by
+  obtain ⟨hS, _, _⟩ := state_groups_eq h hfn
+  have hl := (sC_perm h hfn hnd).length_eq
+  rw [hS]
+  congr 2
+  cases h1 : (groups m).sC with
+  | nil => rw [h1] at hl; cases h2 : (groups m').sC with
+    | nil => rfl
+    | cons a l => rw [h2] at hl; simp at hl
+  | cons a l => rw [h1] at hl; cases h2 : (groups m').sC with
+    | nil => rw [h2] at hl; simp at hl
+    | cons a' l' => rfl
+
+theorem period_choicePerm {m m' : Model} (h : ChoicePermOf m m')
+    (hfn : (m.functions.map (·.name)).Nodup) (hnd : ((m.states ++ m.choices).map (·.1)).Nodup)
+    (hnofilt : ((groups m).sS.isEmpty && (groups m).sC.isEmpty) = true → filterNames m = [])
+    (P : Params) (t : Nat) (ht : t < m.nPeriods)
+    (hnext : nextOf m' P (solve m' P true) t = nextOf m P (solve m P true) t) :
+    (solve m' P true).getD t default = (solve m P true).getD t default := by
+  have ht' : t < m'.nPeriods := by rw [h.periods]; exact ht
+  obtain ⟨hS, hD, hC⟩ := state_groups_eq h hfn
+  have hCg : cStateGrids (groups m') = cStateGrids (groups m) := by unfold cStateGrids; rw [hC]
+  have hfeas := feasOf_choicePerm h hfn hnd P t
+  have hcond := cond_choicePerm h hfn hnd
+  have hnd' : ((m'.states ++ m'.choices).map (·.1)).Nodup := h.permOf.names_nodup hnd
+  obtain ⟨X, hX⟩ := solvePeriod_materialized m P (groups m) t (mkSpace m P (groups m) t) (nextOf m P (solve m P true) t)
+  obtain ⟨X', hX'⟩ := solvePeriod_materialized m' P (groups m') t (mkSpace m' P (groups m') t) (nextOf m' P (solve m' P true) t)
+  have hshape : ((solve m' P true).getD t default).shape = ((solve m P true).getD t default).shape := by
+    rw [solve_shape m P t ht, solve_shape m' P t ht', hcond, hfeas, hD, hCg]
+  refine materialized_ext _ _ X X' ((solve_getD m P t ht).trans hX) ((solve_getD m' P t ht').trans hX') hshape ?_
+  intro idx hidx
+  rw [solve_shape m P t ht] at hidx
+  have huF : ∀ e, uAndF m P (groups m) t (nextOf m P (solve m P true) t) e
+      = uAndF m' P (groups m') t (nextOf m P (solve m P true) t) e :=
+    fun e => uAndF_choicePerm h hfn P t _ e
+  by_cases hsp : (!((groups m).sS.isEmpty && (groups m).sC.isEmpty)) = true
+  · -- arrays with a leading axis of feasible restricted-state combinations
+    have hsp' : (!((groups m').sS.isEmpty && (groups m').sC.isEmpty)) = true := by rw [hcond]; exact hsp
+    simp only [hsp, if_true, List.append_assoc, List.singleton_append] at hidx
+    cases idx with
+    | nil => exact absurd hidx (by simp [InBounds])
+    | cons k rest =>
+      obtain ⟨hk, hrest⟩ := hidx
+      obtain ⟨dIdx, xIdx, rfl, hd, hx⟩ := inBounds_split _ _ _ hrest
+      have hk' : k < (feasOf m' P t).length := by rw [hfeas]; exact hk
+      have hd' : InBounds (sizes (groups m').dS) dIdx := by rw [hD]; exact hd
+      have hx' : InBounds (sizes (cStateGrids (groups m'))) xIdx := by rw [hCg]; exact hx
+      rw [C01_entry_eq_spec_restricted m P t ht hsp k hk dIdx xIdx hd hx hnd,
+        C01_entry_eq_spec_restricted m' P t ht' hsp' k hk' dIdx xIdx hd' hx' hnd', hnext]
+      have hst : ((feasOf m' P t)[k] ++ pickAt (groups m').dS dIdx ++ pickAt (cStateGrids (groups m')) xIdx)
+          = ((feasOf m P t)[k] ++ pickAt (groups m).dS dIdx ++ pickAt (cStateGrids (groups m)) xIdx) := by
+        simp only [hfeas, hD, hCg]
+      rw [hst]
+      symm
+      apply specV_perm_of h.permOf hfn P _ _ t _ _ huF _ _ (List.Perm.refl _)
+      have hdl : dIdx.length = (groups m).dS.length := by rw [inBounds_length _ _ hd, sizes_length]
+      have hxl : xIdx.length = (cStateGrids (groups m)).length := by rw [inBounds_length _ _ hx, sizes_length]
+      have hs : (feasOf m P t)[k] ∈ assignments (groups m).sS := List.mem_of_mem_filter (List.getElem_mem hk)
+      simp only [List.map_append]
+      rw [assignments_keys _ _ hs, pickAt_keys _ _ hdl, pickAt_keys _ _ hxl]
+      exact gridState_choice_names_nodup m hnd
+  · -- arrays without such an axis
+    have hdn : (!((groups m).sS.isEmpty && (groups m).sC.isEmpty)) = false := by simpa using hsp
+    have hdn' : (!((groups m').sS.isEmpty && (groups m').sC.isEmpty)) = false := by rw [hcond]; exact hdn
+    simp only [hdn, Bool.false_eq_true, if_false, List.nil_append] at hidx
+    obtain ⟨dIdx, xIdx, rfl, hd, hx⟩ := inBounds_split _ _ _ hidx
+    have hd' : InBounds (sizes (groups m').dS) dIdx := by rw [hD]; exact hd
+    have hx' : InBounds (sizes (cStateGrids (groups m'))) xIdx := by rw [hCg]; exact hx
+    have hfn0 : filterNames m = [] := hnofilt (by simpa using hdn)
+    have hfn0' : filterNames m' = [] := by
+      have := h.permOf.names (·.isFilter)
+      unfold filterNames at hfn0 ⊢
+      rw [hfn0] at this
+      exact List.perm_nil.mp this.symm
+    rw [C01_entry_eq_spec_unrestricted m P t ht hdn dIdx xIdx hd hx hnd (by rw [hfn0]; rfl),
+      C01_entry_eq_spec_unrestricted m' P t ht' hdn' dIdx xIdx hd' hx' hnd' (by rw [hfn0']; rfl), hnext]
+    have hst : (pickAt (groups m').dS dIdx ++ pickAt (cStateGrids (groups m')) xIdx)
+        = (pickAt (groups m).dS dIdx ++ pickAt (cStateGrids (groups m)) xIdx) := by
+      simp only [hD, hCg]
+    rw [hst]
+    symm
+    apply specV_perm_of h.permOf hfn P _ _ t _ _ huF _ _ (List.Perm.refl _)
+    have hdl : dIdx.length = (groups m).dS.length := by rw [inBounds_length _ _ hd, sizes_length]
+    have hxl : xIdx.length = (cStateGrids (groups m)).length := by rw [inBounds_length _ _ hx, sizes_length]
+    have hemp : ((groups m).sS.isEmpty && (groups m).sC.isEmpty) = true := by simpa using hdn
+    simp only [Bool.and_eq_true, List.isEmpty_iff] at hemp
+    simp only [List.map_append]
+    rw [pickAt_keys _ _ hdl, pickAt_keys _ _ hxl]
+    have := gridState_choice_names_nodup m hnd
+    rw [hemp.1] at this
+    simpa using this
+
+/-- **every period** -/
+theorem C10_choice_and_function_order_irrelevant {m m' : Model} (h : ChoicePermOf m m')
+    (hfn : (m.functions.map (·.name)).Nodup) (hnd : ((m.states ++ m.choices).map (·.1)).Nodup)
+    (hnofilt : ((groups m).sS.isEmpty && (groups m).sC.isEmpty) = true → filterNames m = [])
+    (P : Params) (j : Nat) (hj : j < m.nPeriods) :
+    (solve m' P true).getD (m.nPeriods - 1 - j) default = (solve m P true).getD (m.nPeriods - 1 - j) default := by
+  induction j with
+  | zero =>
+    apply period_choicePerm h hfn hnd hnofilt P _ (by omega)
+    rw [nextOf_last m P _ _ (by omega), nextOf_last m' P _ _ (by rw [h.periods]; omega)]
+  | succ j ih =>
+    have ihj := ih (by omega)
+    apply period_choicePerm h hfn hnd hnofilt P _ (by omega)
+    have hsucc : m.nPeriods - 1 - (j + 1) + 1 = m.nPeriods - 1 - j := by omega
+    unfold nextOf
+    rw [h.periods, hsucc, ihj]
+    have : (mkSpace m' P (groups m') (m.nPeriods - 1 - j)).feas = (mkSpace m P (groups m) (m.nPeriods - 1 - j)).feas := by
+      rw [mkSpace_feas, mkSpace_feas]; exact feasOf_choicePerm h hfn hnd P _
+    rw [this]
+
+/-- the consumption example with its choices and its functions declared in the opposite order (one transition
+function, so the relative order of the transition functions is kept) -/
+def Ex.consModel' : Model :=
+  { Ex.consModel with choices := Ex.consModel.choices.reverse, functions := Ex.consModel.functions.reverse }
+
+-- the hypotheses of `C10_choice_and_function_order_irrelevant` hold for this pair, and the arrays are identical
+example : Ex.consModel.choices.Perm Ex.consModel'.choices := (List.reverse_perm _).symm
+example : Ex.consModel.functions.Perm Ex.consModel'.functions := (List.reverse_perm _).symm
+#guard ((functionInfo Ex.consModel').filter (·.isNext)).map (·.name) == ((functionInfo Ex.consModel).filter (·.isNext)).map (·.name)
+#guard (Ex.consModel.functions.map (·.name)).eraseDups.length == Ex.consModel.functions.length
+#guard filterNames Ex.consModel == []
+#guard ((solve Ex.consModel' Ex.consParams).map fun V => (V.shape, V.toFlat))
+  == ((solve Ex.consModel Ex.consParams).map fun V => (V.shape, V.toFlat))
 
 /-- the F1 witness with its functions and (single) variables declared in another order -/
 def Ex.f1Model' : Model := { Ex.f1Model with functions := Ex.f1Model.functions.reverse }
